@@ -201,7 +201,7 @@ func pfmMonitor(r *Rng, n int, report func(Viol)) {
 func init() {
 	Register(Engine{
 		Name:       "pfm",
-		MaxMonitor: 1500,
+		MaxMonitor: 400,
 		Props:      []string{"C43"},
 		New:        func() Executor { return &pfmExec{env: newPfmEnv()} },
 		Gen:        pfmGen,
